@@ -7,6 +7,7 @@ import Gowarc.Driver.BlockH
 import Gowarc.Driver.RevisitH
 import Gowarc.Driver.WriterH
 import Gowarc.Driver.CutsH
+import Gowarc.Driver.ResH
 namespace Gowarc.Driver
 
 def handleLine (line : String) : String :=
@@ -33,6 +34,7 @@ def handleLine (line : String) : String :=
       | "xpolb" => handleXpolBuild args
       | "writer" => handleWriter args
       | "cuts" => handleCuts args
+      | "res" => handleRes args
       | _ => "unknown-kind"
     id ++ " " ++ out
   | _ => "? bad-line"
